@@ -16,9 +16,14 @@ pub fn parse_obs(text: &str) -> Value {
             json!({"ok":true,"ast":ast_to_json(&a, false),"errclass":"none","compile_same":same})
         }
         Err(e) => {
-            let cerr = jmespath::compile(text).is_err();
+            // compile() must fail too, and its own error must carry the same text and coordinates
+            let c = jmespath::compile(text);
             let j = err_to_json(&e, text);
-            json!({"ok":false,"ast":{"n":"ERR"},"errclass":j["class"].clone(),"err":j,"compile_same":cerr})
+            let cj = match &c {
+                Err(ce) => err_to_json(ce, text),
+                Ok(_) => json!({"none":true}),
+            };
+            json!({"ok":false,"ast":{"n":"ERR"},"errclass":j["class"].clone(),"err":j,"cerr":cj,"compile_same":c.is_err()})
         }
     })
 }
